@@ -45,7 +45,7 @@ PROPS = {
         "min_runs": {"quick": 200, "thorough": 5000},
     },
     "C11": {
-        "harnesses": {"c11_mesh": 0.55, "c11_pmap": 0.15, "c11_mesh.guard": 0.2, "c11_pmap.guard": 0.1},
+        "harnesses": {"c11_mesh": 0.5, "c11_pmap": 0.12, "c11_mesh.guard": 0.2, "c11_pmap.guard": 0.08, "c11_dist": 0.1},
         "budget_s": {"quick": 50, "thorough": 900},
         "min_runs": {"quick": 200, "thorough": 5000},
     },
